@@ -3,7 +3,7 @@
 # Meant for `vp run -- tools/sweep.sh quick 2 3 4 5` (builds first: snapshots have no build output).
 tier=$1; shift
 ./check --setup > /dev/null 2>&1 || { echo "setup failed"; exit 2; }
-props=$(python3 -c "import json;print(' '.join(c['property_id'] for c in json.load(open('MANIFEST.json'))['checks']))")
+props=${SWEEP_PROPS:-$(python3 -c "import json;print(' '.join(c['property_id'] for c in json.load(open('MANIFEST.json'))['checks']))")}
 fail=0
 for s in "$@"; do
   for p in $props; do
